@@ -6,6 +6,8 @@ package mqtt
 
 import (
 	"bufio"
+	"context"
+	"net"
 )
 
 // verifB is the scaled read-buffer size (bufio's minimum is 16).
@@ -98,4 +100,32 @@ func verifTokensHome(c *Client, tag string) {
 	verifAssert(len(c.writeSem) == 1, tag+": writeSem token not returned (every writer would block for ever)")
 	verifAssert(len(c.atLeastOnce.seqSem) == 1, tag+": at-least-once seqSem token not returned (publishes and the next connect would block for ever)")
 	verifAssert(len(c.exactlyOnce.seqSem) == 1, tag+": exactly-once seqSem token not returned (publishes and the next connect would block for ever)")
+}
+
+// verifNextConnectionWorks: the client went offline after a failure; a healthy
+// broker is available now. The next ReadSlices must dial once, connect, and
+// return the first message of the new connection exactly as sent — nothing of
+// the failed connection (a half-read packet, a parked big message) may leak
+// into the new stream.
+func verifNextConnectionWorks(c *Client, store *verifStore, tag string) {
+	if store.find(clientIDKey) < 0 {
+		store.put(clientIDKey, verifRecord([]byte{'c'}, 1))
+	}
+	saved := store.faults
+	store.faults = 0
+	conn2 := &verifInConn{}
+	conn2.in = []byte{0x20, 2, 1, 0, 0x30, 4, 0, 1, 'z', 'y'}
+	conn2.rEOF = true
+	dials := 0
+	c.Config.Dialer = func(ctx context.Context) (net.Conn, error) {
+		dials++
+		return conn2, nil
+	}
+	msg, topic, err := c.ReadSlices()
+	verifAssert(err == nil, tag+": after the failure, the next ReadSlices against a healthy broker fails (the client does not recover)")
+	if err == nil {
+		verifAssert(string(topic) == "z" && string(msg) == "y", tag+": the first message of the new connection is not returned as sent (bytes of the new stream were skipped or misread)")
+	}
+	verifAssert(dials == 1, tag+": the next ReadSlices did not dial exactly once")
+	store.faults = saved
 }
